@@ -14,6 +14,8 @@ import FordModel.Lemmas.ExternalUrl
 import FordModel.Lemmas.ExternalMulti
 import FordModel.ExternalGraph
 import FordModel.Lemmas.ExternalGraph
+import FordModel.ExternalAssoc
+import FordModel.Lemmas.ExternalAssoc
 namespace Ford.C16
 open Ford Ford.Ext
 
@@ -509,6 +511,128 @@ theorem scheme_test_breaks_local_externals_witness :
       = some (chars! "..//abs/A/doc/module/m.html") ∧
     nodeUrlWith (.atom .urlHasScheme) Gen.nodeStringified (chars! "../") (o (chars! "https://h/a/module/m.html"))
       = some (chars! "https://h/a/module/m.html") := by
+  decide
+
+/-! ## Round 5: entities of A inside B - `[[...]]` to parts of A that B's code does not use, and USE association
+    through B's own modules -/
+
+/-- "every public entity of A that B ... names in a `[[...]]` reference is linked": *whatever B's source
+    contains*.  A is exported (valid kinds) and `m` is any of its modules; B is any project - its USE statements
+    are not even a parameter: nothing of B decides what is loaded - that has no module, submodule or
+    already-known external module of that name.  Then the description converts and the unqualified `[[name]]`
+    is resolved by `Project.find` to an entity loaded from A's description that carries the module's name
+    (modules, submodules and `extModules` are the first three collections of the generated LINK_TYPES). -/
+theorem reference_to_any_exported_module_resolves (b : Base) (version : Str) (mods : List Ent)
+    (hv : validList mods = true) (hn : mods.all isNode = true) (m : Ent) (hm : m ∈ mods)
+    (name : Str) (url : Option Str) (obj : Str) (pt : Option Str) (attrs : List (Str × Attr))
+    (he : m = .node name url obj pt attrs) (hmod : kindOf obj pt = kModule) (own : Colls)
+    (h1 : findIn name (collection own kModulesColl) = none)
+    (h2 : findIn name (collection own kSubmodulesColl) = none)
+    (h3 : findIn name (collection own kExtModules) = none) :
+    ∃ os, importDoc b (dumpModules version mods) = .ok os ∧
+      ∃ x, projectFind (withLoaded own (entriesAll os)) name none = some (some x) ∧
+        x.ext = true ∧ lower x.name = lower name := by
+  obtain ⟨os, hos, e, hemem, hname, hcls, hlist, _⟩ :=
+    roundtrip b version mods hv hn m hm m (Reach.refl m) name url obj pt attrs he
+  refine ⟨os, hos, ?_⟩
+  have hl : e.list = kExtModules := by rw [hlist, hmod]; decide
+  have hin := loadedIn_mem kExtModules (entriesAll os) e name hemem hname hl
+  obtain ⟨x, hxm, hfx, hxn⟩ := findIn_of_mem name (loadedIn kExtModules (entriesAll os)) ⟨_, hin, rfl⟩
+  -- whatever the search returns from a list of loaded objects is an external entity with that name
+  have key : ∀ c y, findIn name (loadedIn c (entriesAll os)) = some y → y.ext = true ∧ lower y.name = lower name :=
+    fun c y hy => ⟨loadedIn_ext c _ y (findIn_some name _ y hy).1, (findIn_some name _ y hy).2⟩
+  obtain ⟨k1, k2, k3, rest, hrest⟩ : ∃ k1 k2 k3 rest, Gen.linkTypes =
+      (k1, kModulesColl) :: (k2, kSubmodulesColl) :: (k3, kExtModules) :: rest := ⟨_, _, _, _, rfl⟩
+  have hm1 : kModulesColl ∈ Gen.linkTypes.map (·.2) := by decide
+  have hm2 : kSubmodulesColl ∈ Gen.linkTypes.map (·.2) := by decide
+  have hm3 : kExtModules ∈ Gen.linkTypes.map (·.2) := by decide
+  have c1 := collection_withLoaded own (entriesAll os) _ hm1
+  have c2 := collection_withLoaded own (entriesAll os) _ hm2
+  have c3 := collection_withLoaded own (entriesAll os) _ hm3
+  have hflat : ∃ R, (Gen.linkTypes.map (fun kv => collection (withLoaded own (entriesAll os)) kv.2)).flatten =
+      (collection own kModulesColl ++ loadedIn kModulesColl (entriesAll os)) ++
+      ((collection own kSubmodulesColl ++ loadedIn kSubmodulesColl (entriesAll os)) ++
+      ((collection own kExtModules ++ loadedIn kExtModules (entriesAll os)) ++ R)) := by
+    refine ⟨(rest.map (fun kv => collection (withLoaded own (entriesAll os)) kv.2)).flatten, ?_⟩
+    rw [hrest]
+    simp only [List.map_cons, List.flatten_cons, c1, c2, c3]
+  obtain ⟨R, hR⟩ := hflat
+  simp only [projectFind, hR, findIn_append, h1, h2, h3, Option.none_or]
+  cases hA : findIn name (loadedIn kModulesColl (entriesAll os)) with
+  | some y => exact ⟨y, by simp, key _ y hA⟩
+  | none =>
+    cases hB : findIn name (loadedIn kSubmodulesColl (entriesAll os)) with
+    | some y => exact ⟨y, by simp, key _ y hB⟩
+    | none => exact ⟨x, by simp [hfx], loadedIn_ext _ _ x hxm, hxn⟩
+
+/-- `filter_public` - what a module of B passes on of the entities it got by USE association - looks at the
+    *name* only (public by default, or named in a PUBLIC statement): an entity is kept or dropped whether it is
+    one of B's own or one imported from an external project. -/
+theorem reexport_filter_ignores_origin (m : BMod) (t : Tbl) (k : Str) (v : Item) :
+    (k, v) ∈ filterPublic m t ↔ (k, v) ∈ t ∧ shouldBePublic m k = true :=
+  mem_filterWith _ t k v
+
+/-- "every public entity of A that B uses, extends ... is linked" when B gets it *indirectly*: module `P` of B
+    uses module `mname` (of A - or of B, any depth: `pubM` is whatever that module passes on) and passes the
+    name `k` on (public by default or listed PUBLIC); module `Q` of B uses `P`.  Then the very entity `e` that
+    `mname` offers under `k` - with its class and its `external_url` - is what `P` passes on and what `Q`'s
+    declarations (`extends(k)`, `type(k)`, `procedure(k)`, calls) are resolved to.  For each of the four tables;
+    whatever else `P` and `Q` declare themselves. -/
+theorem external_entity_passes_through_prelude (env ext : List (Str × Pub)) (mname : Str) (pubM : Pub)
+    (P Q : BMod) (hM : lookupMod env ext mname = some pubM) (hP : P.uses = [(mname, .all)])
+    (hQ : Q.uses = [(P.name, .all)]) (hfresh : findMod P.name env = none) (f : Fld) (k : Str) (e : Item)
+    (hk : (pubM.get f).lookup k = some e) (hwM : (pubM.get f).wf) (hwP : (P.ownPub.get f).wf)
+    (hpub : shouldBePublic P k = true) :
+    (((correlateMod P env ext).1).get f).lookup k = some e ∧
+    (((correlateMod Q (env ++ [(P.name, (correlateMod P env ext).1)]) ext).2).get f).lookup k = some e := by
+  have hPres := correlateModWith_single_all (fun m k _ => shouldBePublic m k) P env ext mname pubM hP hM
+  have hmemF : (k, e) ∈ filterWith (fun k _ => shouldBePublic P k) (pubM.get f) :=
+    (mem_filterWith _ _ k e).mpr ⟨lookup_some_mem _ _ _ hk, hpub⟩
+  have hwF : Tbl.wf (filterWith (fun k _ => shouldBePublic P k) (pubM.get f)) := wf_filter _ _ hwM
+  have h1 : (((correlateMod P env ext).1).get f).lookup k = some e := by
+    simp only [correlateMod, hPres, get_update, get_map]
+    exact lookup_dupdate_of_lookup _ _ k e hwF (lookup_of_mem_wf _ k e hwF hmemF)
+  refine ⟨h1, ?_⟩
+  have hlook : lookupMod (env ++ [(P.name, (correlateMod P env ext).1)]) ext P.name
+      = some (correlateMod P env ext).1 := by
+    simp [lookupMod, findMod_append_fresh P.name env _ hfresh]
+  have hQres := correlateModWith_single_all (fun m k _ => shouldBePublic m k) Q
+    (env ++ [(P.name, (correlateMod P env ext).1)]) ext P.name _ hQ hlook
+  have hwPp : Tbl.wf (((correlateMod P env ext).1).get f) := by
+    simp only [correlateMod, hPres, get_update, get_map]
+    exact wf_dupdate _ _ hwP
+  have hQ' : correlateMod Q (env ++ [(P.name, (correlateMod P env ext).1)]) ext
+      = (Q.ownPub.update ((correlateMod P env ext).1.map (filterWith (fun k _ => shouldBePublic Q k))),
+         Q.ownAll.update (correlateMod P env ext).1) := hQres
+  rw [hQ', get_update]
+  exact lookup_dupdate_of_lookup _ _ k e hwPp h1
+
+/-- Why `reexport_filter_ignores_origin` is load-bearing: with a `filter_public` that leaves out the entities
+    of other external projects (say, when the project is itself documented with `externalize`), the prelude
+    module passes nothing of A on and a type `t` of A is unknown in the module that uses the prelude - while
+    the code as it is hands it through. -/
+theorem reexport_dropping_external_entities_witness :
+    let t : Item := { ext := true, cls := chars! "type", name := .str ['t'], url := .str (chars! "/A/doc/type/t.html") }
+    let ext : List (Str × Pub) := [(['a'], { procs := [], absints := [], types := [(['t'], t)], vars := [] })]
+    let P : BMod := { name := ['p'], isPublic := true, publicList := [], ownPub := Pub.empty, ownAll := Pub.empty,
+                      uses := [(['a'], .all)] }
+    let Q : BMod := { name := ['q'], isPublic := true, publicList := [], ownPub := Pub.empty, ownAll := Pub.empty,
+                      uses := [(['p'], .all)] }
+    let dropExt : BMod → Str → Item → Bool := fun m k it => shouldBePublic m k && !it.ext
+    (((correlateModWith dropExt Q [(['p'], (correlateModWith dropExt P [] ext).1)] ext).2.types).lookup ['t']).isSome = false ∧
+    (((correlateMod Q [(['p'], (correlateMod P [] ext).1)] ext).2.types).lookup ['t']).isSome = true := by
+  decide
+
+/-- Non-vacuity of the prelude theorem: with ONLY lists and a private prelude that names the type in a PUBLIC
+    statement the entity still arrives, under the local name of a rename. -/
+example :
+    let t : Item := { ext := true, cls := chars! "type", name := .str ['t'], url := .str (chars! "/A/doc/type/t.html") }
+    let ext : List (Str × Pub) := [(['a'], { procs := [], absints := [], types := [(['t'], t)], vars := [] })]
+    let P : BMod := { name := ['p'], isPublic := false, publicList := [['u']], ownPub := Pub.empty, ownAll := Pub.empty,
+                      uses := [(['A'], .only [(['u'], ['T'])])] }
+    let Q : BMod := { name := ['q'], isPublic := true, publicList := [], ownPub := Pub.empty, ownAll := Pub.empty,
+                      uses := [(['p'], .only [(['u'], ['u'])])] }
+    ((correlateAll ext [P, Q] []).map (fun r => (r.1, r.2.2.types.map (·.1)))) = [(['p'], [['u']]), (['q'], [['u']])] := by
   decide
 
 /-- Non-vacuity: a two-level module tree is valid, and its round trip appends the module and its
